@@ -29,12 +29,14 @@ MANIFEST = dict(
           "uniqueness of the root, bracket invariant), lies in the half revolution of M, and tan(v/2) = "
           "sqrt((1+e)/(1-e)) tan(E/2); vis-viva: velocity(a(1-e),a)/velocity_perihelion(e,a) = 42.1218/(sqrt2*29.7847) "
           "(within 1e-5 of 1), perihelion*aphelion speed = 29.7847^2/a; 2 pi b <= length_orbit <= 2 pi a for both "
-          "formulas; k = (1+cos i)/2 for triangle-feasible distances; node passages use the E with "
-          "tan(v/2) = sqrt((1+e)/(1-e)) tan(E/2), v = -omega or 180-omega (mod 360), t - T = M/n. "
+          "formulas, and the relative jump between them at the switch e = 0.95 lies between 1.4e-4 and 1.5e-4; "
+          "k = (1+cos i)/2 for triangle-feasible distances; node passages use the E with "
+          "tan(v/2) = sqrt((1+e)/(1-e)) tan(E/2), v = -omega or 180-omega (mod 360), t - T = M/n, the orbit equation "
+          "r(1+e cos v) = a(1-e^2) holds, and kepler_equation at n(t-T) returns that E to (pi/2)/2^34 rad. "
           "The model is tied to /repo by running its binary64 instantiation against the real code bit for bit; "
-          "every clause is also evaluated on the real code with the tolerances of the statement. "
-          "Numerical only (no theorem): the size of the jump of length_orbit at e = 0.95 (measured 1.44e-4 relative, "
-          "checked against 2e-4), the conditioning of the node-passage round trip through kepler_equation."),
+          "every clause is also evaluated on the real code with the tolerances of the statement. Numerical only (no theorem): 'continuous across the switch' is read as a jump below 2e-4 "
+          "(the proved jump is 1.44e-4, the accuracy of the two approximations); the conditioning of the node-passage "
+          "round trip in binary64 (tolerance scaled by dv/dM)."),
     note=("Trusted: Lean kernel, Mathlib, axioms propext/Classical.choice/Quot.sound; the hand-written model "
           "(lean/templates/Kepler.lean) and its bit-exact correspondence run; the idealisation binary64 -> real "
           "numbers (theorems are about real arithmetic; rounding is only measured, by the predicates). "
